@@ -124,13 +124,13 @@ def calibrate(trace_path, rejected_lines, every=1):
                 a, b = hcdf(shape, av), hcdf(shape, bv)
                 fl_, fh = min(a, b), max(a, b)
                 g = hcdf(shape, xv)
-                habs = F(2) ** -(P - 6) if hw else 0
+                habs = F(2) ** -(P - 5) if hw else 0
                 tol = lambda p, q, ab: max(abs(p), abs(q)) * F(2) ** -(P - 6) + ab + F(2) ** -96
                 n, d, n1, d1, n2, d2 = xn ** 2, xd ** 2, an ** 2, ad ** 2, bn ** 2, bd ** 2
                 A, B, dd = n1 * d2, n2 * d1, d1 * d2
                 sl, sh = min(A, B), max(A, B)
                 lhs = n * dd
-                sabs = F(2) ** -(P - 8) * xd * dd if hw else 0
+                sabs = F(2) ** -(P - 6) * xd * dd if hw else 0
                 # containment in CDF space
                 over = max(fl_ - g, g - fh, 0)
                 up("between.height_cdf", float(over / tol(fl_, fh, habs)), e)
@@ -167,18 +167,29 @@ def calibrate(trace_path, rejected_lines, every=1):
 
 def model_run(ctx):
     g = 2 if ctx.quick else 4
-    r = tlc_mc(ctx, "MC_Random", constants={"LN": 2, "G": g, "Emit": "TRUE"}, tag="random_model", workers=6, timeout=1500)
-    zero = coverage_zero_actions(r.out_path, {"Random", "MC_Random"})
-    if zero:
-        raise ToolError("vacuity: actions never taken in MC_Random: %s" % zero)
+    ln = 2
+    # -coverage is not usable for this module: TLC's cost model expands the call tree of the bignum relations once per
+    # call site and does not fit in 6 GB even for the smallest constants. Vacuity is controlled by the exact number of
+    # distinct states instead: every enumerated case is a state, and every grid point must have BOTH successors produced by
+    # the model's own actions (SampleStandard / SampleUniform enabled on the exact inverse), so a disabled action, an
+    # empty enumeration or an unreachable phase changes the count.
+    r = tlc_mc(ctx, "MC_Random", constants={"LN": ln, "G": g, "Emit": "TRUE"}, tag="random_model", workers=6, timeout=1500,
+               coverage=False)
+    n = 2 ** ln
+    cells, points, fine, ncase = 2 * n ** 3, 3 * (n + 1) ** 2 * n, 2 * 32, (g + 1) ** 4
+    blocks = 2 * n + 3 * (n + 1) + 2 * 4 + (g + 1)
+    expected = 1 + blocks + cells + points + fine + ncase + 2 * points
+    if r.distinct != expected:
+        raise ToolError("vacuity: MC_Random reached %d distinct states, expected %d (a model action is disabled or an "
+                        "enumeration is empty), see %s" % (r.distinct, expected, r.out_path))
     cases = extract_prints(r.out_path, "REPLAY")
-    if len(cases) != (g + 1) ** 4:
-        raise ToolError("MC_Random emitted %d cases, expected %d" % (len(cases), (g + 1) ** 4))
+    if len(set(cases)) != ncase:
+        raise ToolError("MC_Random emitted %d distinct cases, expected %d" % (len(set(cases)), ncase))
     path = ctx.p("random.cases.ndjson")
     with open(path, "w") as f:
-        for c in sorted(cases):
+        for c in sorted(set(cases)):
             f.write(c + "\n")
-    return path, len(cases)
+    return path, ncase
 
 
 def interleave(ctx, path, k):
@@ -245,7 +256,7 @@ def run(ctx):
                   extra={"per_kind": stats.get("per"), "panics": stats.get("panics"), "tlc_cases": ncases,
                          "rejected_by_class": classes, "max_deviation_over_tolerance": cal,
                          "tolerances": {"cdf_relations": "64 u relative to the CDF value (u = 2^-Prec)",
-                                        "hwb_forms": "+ 64 u absolute on v^3, + 256 u * v on chroma^2 (b = 1 - v is stored)",
+                                        "hwb_forms": "+ 32 u absolute on v^3, + 64 u * v on chroma^2 (b = 1 - v is stored)",
                                         "hue": "16 ulp of 720 degrees (2^(14-Prec))", "rooted components": "64 u relative",
                                         "direct components": "none (closed interval, exactly)", "documented bounds": "8 ulp of the bound"},
                          "volume_clause_types": list(VOLUME),
